@@ -214,6 +214,30 @@ fn real_main() -> i32 {
             else if what == "a64" { println!("{}", pipeline::a64(lin).unwrap().text); }
             else if what == "rv" { println!("{}", pipeline::rv64(lin).unwrap().text); }
         }
+        Some("sharing") => {
+            // scc-verif sharing <l> <closure:0|1> <k>: print a directed sharing program
+            let l: usize = args[2].parse().unwrap();
+            let c = args[3] == "1";
+            let k: usize = args[4].parse().unwrap();
+            print!("{}", props::directed::sharing_program(l, c, k));
+        }
+        Some("runsrc") => {
+            // scc-verif runsrc <file> <x86_64|aarch64|rv64> [args...]: reference vs emulator (HEAPMON=0 turns the heap monitor off)
+            pipeline::install_quiet_panic_hook();
+            let src = std::fs::read_to_string(&args[2]).unwrap();
+            let isa = props::backend::Isa::from_name(&args[3]).expect("isa");
+            let a: Vec<i64> = args[4..].iter().map(|x| x.parse().unwrap()).collect();
+            let st = pipeline::all_stages(&src).unwrap_or_else(|e| panic!("{}", e.describe()));
+            let (reference, _) = sem_axcut::run(&st.linear, &a, sem_axcut::Mode::Positional, &Default::default());
+            println!("reference: prints {:?} end {:?}", reference.prints.iter().map(|p| p.value).collect::<Vec<_>>(), reference.end);
+            let asm = props::backend::codegen(isa, st.linear.clone()).unwrap_or_else(|e| panic!("{}", e.describe()));
+            let cfg = emu::EmuConfig { heap_check_every: if std::env::var("HEAPMON").as_deref() == Ok("0") { 0 } else { 1 }, ..Default::default() };
+            let r = props::backend::emulate(isa, &asm.text, &a, &cfg).unwrap();
+            println!("emulator:  prints {:?} end {:?}", r.outcome.prints.iter().map(|p| p.value).collect::<Vec<_>>(), r.outcome.end);
+            if let Some(v) = r.violation {
+                println!("violation: line {} {:?} {}", v.pc_line, v.kind, v.msg);
+            }
+        }
         _ => eprintln!("usage"),
     }
     0
